@@ -4,6 +4,7 @@
 import PatchModel.Spec.Script
 import PatchModel.Lemmas.Valid
 import PatchModel.Props.C03
+import PatchModel.Lemmas.ApplyLoop
 namespace PatchModel.C01
 open PatchModel PatchModel.Script
 
@@ -151,14 +152,67 @@ theorem C01_core (file : List Line) (hs : List Hunk) (p0 : Patch) (o : ApplyOpts
     applyPatch_valid file hs p0 o tty hv (by simp [hR, hp]) hD hF
   exact ⟨r, h1, h2, h3, h4, h5, h6, h7, h8, h9, h10⟩
 
-/-- bytes level: the output file is the rendering of the intended new file -/
+/-- bytes level: the output file is the intended new file as text (`Render.renderText`: every line as it is in the mode, except
+    that a line without newline which is not the last one gets the newline of the mode — the writer's rule, D97; before it the
+    right-hand side was `renderLines`, and a `Valid` script could glue an added line to an unterminated one, see
+    `C01_bytes_glue` below) -/
 theorem C01_bytes (file : List Line) (hs : List Hunk) (p0 : Patch) (o : ApplyOpts) (tty : Option (List Bool))
     (hv : Valid file 0 0 hs) (hp : p0.hunks = hs)
     (hD : o.define = []) (hR : o.reverse = false) (hF : 0 ≤ o.maxFuzz) :
     ∃ r, applyPatch file p0 o tty = .ok r ∧
-      render o.newlineOutput r.out = renderLines o.newlineOutput (splice file 0 hs) := by
+      render o.newlineOutput r.out = Render.renderText o.newlineOutput (splice file 0 hs) := by
   obtain ⟨r, h1, h2, _⟩ := C01_core file hs p0 o tty hv hp hD hR hF
-  exact ⟨r, h1, by rw [render, h2]⟩
+  exact ⟨r, h1, Render.render_eq_renderText_of_map_line _ (ApplyLoop.applyPatch_noBare hD h1) h2⟩
+
+/-- bytes level, the intended new file a text whose only possibly unterminated line is the last (every file as read by
+    `splitLines` is one: `Render.linesTerminated_splitLines`): the output is its lines rendered one by one -/
+theorem C01_bytes_terminated (file : List Line) (hs : List Hunk) (p0 : Patch) (o : ApplyOpts) (tty : Option (List Bool))
+    (hv : Valid file 0 0 hs) (hp : p0.hunks = hs)
+    (hD : o.define = []) (hR : o.reverse = false) (hF : 0 ≤ o.maxFuzz)
+    (hnew : Render.LinesTerminated (splice file 0 hs)) :
+    ∃ r, applyPatch file p0 o tty = .ok r ∧
+      render o.newlineOutput r.out = renderLines o.newlineOutput (splice file 0 hs) := by
+  obtain ⟨r, h1, h2⟩ := C01_bytes file hs p0 o tty hv hp hD hR hF
+  exact ⟨r, h1, by rw [h2, Render.renderText_eq_renderLines _ _ hnew]⟩
+
+/-- the new file given as bytes -/
+theorem C01_bytes_new (file : List Line) (hs : List Hunk) (p0 : Patch) (o : ApplyOpts) (tty : Option (List Bool))
+    (newBytes : Bytes)
+    (hv : Valid file 0 0 hs) (hp : p0.hunks = hs)
+    (hD : o.define = []) (hR : o.reverse = false) (hF : 0 ≤ o.maxFuzz)
+    (hnew : splice file 0 hs = splitLines newBytes) :
+    ∃ r, applyPatch file p0 o tty = .ok r ∧
+      render o.newlineOutput r.out = renderLines o.newlineOutput (splitLines newBytes) := by
+  obtain ⟨r, h1, h2⟩ := C01_bytes_terminated file hs p0 o tty hv hp hD hR hF
+    (by rw [hnew]; exact Render.linesTerminated_splitLines newBytes)
+  exact ⟨r, h1, by rw [h2, hnew]⟩
+
+/-- why `C01_bytes` speaks of `renderText`: the file "c" (no final newline) and the `Valid` one-hunk script " c" (no newline), "+d\n".
+    The intended lines are "c" (unterminated) and "d\n"; their bytes one by one would be "cd\n", the output is "c\nd\n". -/
+def glueFile : List Line := [⟨[99], .none⟩]
+def glueHunk : Hunk :=
+  { old := ⟨1, 1⟩, new := ⟨1, 2⟩, lines := [⟨SP, ⟨[99], .none⟩⟩, ⟨PLUS, ⟨[100], .lf⟩⟩] }
+
+theorem C01_bytes_glue :
+    validB glueFile 0 0 [glueHunk] = true ∧
+    splice glueFile 0 [glueHunk] = [⟨[99], .none⟩, ⟨[100], .lf⟩] ∧
+    renderLines .lf (splice glueFile 0 [glueHunk]) = [99, 100, 10] ∧
+    Render.renderText .lf (splice glueFile 0 [glueHunk]) = [99, 10, 100, 10] ∧
+    (∃ r, applyPatch glueFile { hunks := [glueHunk] } { newlineOutput := .lf } none = .ok r ∧
+      render .lf r.out = [99, 10, 100, 10]) := by
+  refine ⟨by decide, by decide, by decide, by decide, ?_⟩
+  have hv : Valid glueFile 0 0 [glueHunk] := by
+    refine Valid.cons 0 0 glueHunk [] 0 ?_ (by decide) (by decide) (by decide) (by decide) (by decide) (by decide) ?_
+    · refine ⟨?_, by decide, by decide⟩
+      intro pl hpl
+      simp only [glueHunk, List.mem_cons, List.mem_nil_iff, or_false] at hpl
+      rcases hpl with rfl | rfl
+      · exact Or.inl rfl
+      · exact Or.inr (Or.inl rfl)
+    · exact Valid.nil _ _ (by decide)
+  obtain ⟨r, h1, h2⟩ := C01_bytes glueFile [glueHunk] { hunks := [glueHunk] } { newlineOutput := .lf } none hv rfl rfl rfl
+    (by decide)
+  exact ⟨r, h1, h2.trans (by decide)⟩
 
 /-! ### non-vacuity: a valid script exists for every pair of files -/
 
